@@ -44,6 +44,7 @@ import CtyModel.Lemmas.RefineFnsTie
 import CtyModel.Lemmas.d05Bridge
 import CtyModel.Lemmas.d05Chain
 import CtyModel.Lemmas.d05Prefix
+import CtyModel.Lemmas.d05Range
 namespace CtyModel
 namespace C05
 open Refine
@@ -169,6 +170,26 @@ theorem refine_exact_partial [ExactOracle] (v w : Value) (cs : List RefineCall)
   obtain ⟨hs, hw', _, _, hex⟩ := run_effect hd' hr
   rw [(newValue_exact (hw' hwf) (by rw [hs.1, ho]; exact hk)
     (by rw [Builder.isDyn_congr hs]; exact hd') hn).2, hex hc x, init_γ hi hk x hx]
+
+/-- END TO END, in one statement: what a caller reads off `Range()` of the value returned by
+`v.Refine().<calls>.NewValue()` — be it still unknown, collapsed to a known value, or null — admits exactly the
+concrete values the receiver admitted that satisfy every stated constraint: `γV v ∩ ⋂ ⟦c⟧`.
+(`ValueRange.admitsN` = the accessors `CouldBeNull`, `NumberLowerBound`/`UpperBound`, `StringPrefix`,
+`LengthLowerBound`/`UpperBound`, and "definitely null" as `Includes` reads it; exact number equality; no call of
+the dropped shape.) -/
+theorem refine_range_exact [ExactOracle] (v w : Value) (cs : List RefineCall)
+    (hk : v.unmark.isKnown = false) (hd : isDynVal v.unmark = false)
+    (hc : cs.all (fun c => !c.dropped) = true) (h : refine v cs = .ok w) :
+    ∃ vr, range w.unmark = .ok vr ∧ vr.ty = v.ty ∧
+      ∀ x, x.fits = true → vr.admitsN x = (γV v x && cs.all (fun c => den c x)) := by
+  obtain ⟨b, b', hi, hr, hn⟩ := refine_ok h
+  obtain ⟨ho, _, hwf, _, _⟩ := init_ok hi
+  have hd' : b.isDyn = false := by unfold Builder.isDyn; rw [ho]; exact hd
+  obtain ⟨hs, hw', _, _, hex⟩ := run_effect hd' hr
+  obtain ⟨vr, h1, h2, h3⟩ := D05.newValue_range_exact (hw' hwf) (by rw [hs.1, ho]; exact hk)
+    (by rw [Builder.isDyn_congr hs]; exact hd') hn
+  refine ⟨vr, h1, by rw [h2, hs.1, ho]; rfl, fun x hx => ?_⟩
+  rw [h3 x hx, hex hc x, init_γ hi hk x hx]
 
 /-- `Range()` reports exactly what was recorded, for every oracle: the accessors of
 the returned value's range (`CouldBeNull`, `NumberLowerBound`/`UpperBound` with
@@ -524,6 +545,14 @@ example : (RefineCall.lenUpper 1).isRange = true ∧ (RefineCall.lenUpper 1).exc
 -- `range_reports_exact`, `newValue_known_exact`: `NewValue` returns, and the result is unknown
 example : ∃ w, @newValue textOracle sampleNum = .ok w ∧ w.isKnown = false := ⟨_, rfl, rfl⟩
 
+-- `refine_range_exact`: an unknown number; a chain that collapses to the known number 2 (the bounds held at 64 and
+-- 512 bits), and one that stays unknown — both accepted, no call of the dropped shape
+example : @refine exactPartialOracle.toEqOracle ⟨.number, .unk .unref⟩
+      [.notNull, .numRangeInclusive (.known (.fin false 1 1 64)) (.known (.fin false 1 1 512))] =
+      .ok ⟨.number, .n (.fin false 1 1 64)⟩ ∧
+    (@refine exactPartialOracle.toEqOracle ⟨.number, .unk .unref⟩
+      [.numLower (.known (.fin false 1 1 64)) false]).isOk = true := ⟨rfl, rfl⟩
+
 -- `known_is_assertion`: the known number 2 with two assertions that hold of it
 example : concOf ⟨.number, .n (.fin false 1 1 64)⟩ = some (.num (.fin false 1 1 64)) ∧
     (@refine exactPartialOracle.toEqOracle ⟨.number, .n (.fin false 1 1 64)⟩
@@ -627,6 +656,16 @@ theorem refine_exact_code_integers (v w : Value) (cs : List RefineCall) (hk : v.
     (h : @refine textOracle v cs = .ok w) (x : Conc) (hx : x.fits = true) :
     γV w x = (γV v x && cs.all (fun c => den c x)) :=
   @refine_exact_partial exactIdealOracle v w cs hk hd hdr ((refine_code_eq_exact v cs hv hc).1 ▸ h) x hx
+
+/-- The end-to-end statement FOR THE CODE'S ORACLE on integer inputs: `Range()` of the value the code returns
+admits exactly `γV v ∩ ⋂ ⟦c⟧`. -/
+theorem refine_range_exact_code_integers (v w : Value) (cs : List RefineCall) (hk : v.unmark.isKnown = false)
+    (hd : isDynVal v.unmark = false) (hdr : cs.all (fun c => !c.dropped) = true)
+    (hv : valueOk intLike v = true) (hc : cs.all (callOk intLike) = true)
+    (h : @refine textOracle v cs = .ok w) :
+    ∃ vr, range w.unmark = .ok vr ∧ vr.ty = v.ty ∧
+      ∀ x, x.fits = true → vr.admitsN x = (γV v x && cs.all (fun c => den c x)) :=
+  @refine_range_exact exactIdealOracle v w cs hk hd hdr ((refine_code_eq_exact v cs hv hc).1 ▸ h)
 
 /-- "a constraint that contradicts earlier constraints is rejected" FOR THE CODE'S ORACLE on integer inputs:
 `RejectsContradiction textOracle` restricted to integer bounds and inclusive-or-finite new bounds.  The text
@@ -850,6 +889,24 @@ theorem refine_exact_code_integers_generated (v w : Value) (cs : List RefineCall
     (hx : x.fits = true) : γV w x = (γV v x && (cs.map ext).all (fun c => den c x)) :=
   refine_exact_code_integers v w (cs.map ext) hk hd hdr hv (by rw [callOk_ext]; exact hc)
     (ok_of_generated (@refine_eq textOracle _ v cs hm) h) x hx
+
+/-- the end-to-end `Range()` statement, about the translated source under THE CODE'S number equality -/
+theorem refine_range_exact_code_integers_generated (v w : Value) (cs : List RefineCall) (hm : Modelled v)
+    (hk : v.unmark.isKnown = false) (hd : isDynVal v.unmark = false)
+    (hdr : (cs.map ext).all (fun c => !c.dropped) = true) (hv : valueOk intLike v = true)
+    (hc : cs.all (callOk intLike) = true) (h : @Generated.RefineFns.refine textOracle _ v cs = .ok w) :
+    ∃ vr, range w.unmark = .ok vr ∧ vr.ty = v.ty ∧
+      ∀ x, x.fits = true → vr.admitsN x = (γV v x && (cs.map ext).all (fun c => den c x)) :=
+  refine_range_exact_code_integers v w (cs.map ext) hk hd hdr hv (by rw [callOk_ext]; exact hc)
+    (ok_of_generated (@refine_eq textOracle _ v cs hm) h)
+
+/-- … and under any exact oracle -/
+theorem refine_range_exact_generated [ExactOracle] (v w : Value) (cs : List RefineCall) (hm : Modelled v)
+    (hk : v.unmark.isKnown = false) (hd : isDynVal v.unmark = false)
+    (hdr : (cs.map ext).all (fun c => !c.dropped) = true) (h : Generated.RefineFns.refine v cs = .ok w) :
+    ∃ vr, range w.unmark = .ok vr ∧ vr.ty = v.ty ∧
+      ∀ x, x.fits = true → vr.admitsN x = (γV v x && (cs.map ext).all (fun c => den c x)) :=
+  refine_range_exact v w (cs.map ext) hk hd hdr (ok_of_generated (refine_eq v cs hm) h)
 
 /-- contradictions are rejected — the translated source PANICS — under THE CODE'S number equality, on integer inputs -/
 theorem rejects_contradiction_code_integers_generated (b : Builder) (c : RefineCall) (hw : b.wf = true)
